@@ -573,4 +573,69 @@ example : (indexSortQuery false [[("b", 20), ("e", 35), ("f", 50)], [("a", 10), 
 
 
 
+
+
+/-! ## 9. index-ordered stream query window; distributed limit/offset push-down -/
+
+def idxStep (w : Int × Int) (e : IElem) : Int × Int :=
+  (if decide (e.ts < w.1) || decide (w.1 = 0) then e.ts else w.1, if e.ts > w.2 then e.ts else w.2)
+
+theorem idxWindow_eq (batch : List IElem) : idxWindow batch = batch.foldl idxStep (0, 0) := rfl
+
+theorem idxFold_spec : ∀ (batch : List IElem) (w : Int × Int), (∀ e ∈ batch, 0 < e.ts) → 0 ≤ w.1 →
+    let r := batch.foldl idxStep w
+    (w.1 ≠ 0 → r.1 ≤ w.1 ∧ 0 < r.1) ∧ w.2 ≤ r.2 ∧ (∀ e ∈ batch, r.1 ≤ e.ts ∧ e.ts ≤ r.2 ∧ 0 < r.1) := by
+  intro batch
+  induction batch with
+  | nil => intro w _ h0; simp; omega
+  | cons x xs ih =>
+    intro w hpos h0
+    have hx := hpos x List.mem_cons_self
+    have hstep1 : (idxStep w x).1 ≠ 0 ∧ 0 ≤ (idxStep w x).1 ∧ (idxStep w x).1 ≤ x.ts ∧ (w.1 ≠ 0 → (idxStep w x).1 ≤ w.1) := by
+      simp only [idxStep]
+      by_cases h1 : x.ts < w.1 <;> by_cases h2 : w.1 = 0 <;> simp [h1, h2] <;> omega
+    have hstep2 : w.2 ≤ (idxStep w x).2 ∧ x.ts ≤ (idxStep w x).2 := by
+      simp only [idxStep]; split <;> omega
+    have ⟨i1, i2, i3⟩ := ih (idxStep w x) (fun e he => hpos e (List.mem_cons_of_mem _ he)) hstep1.2.1
+    have i1' := i1 hstep1.1
+    simp only [List.foldl_cons]
+    refine ⟨fun hw => ⟨by have := hstep1.2.2.2 hw; omega, i1'.2⟩, by omega, ?_⟩
+    intro e he
+    rcases List.mem_cons.mp he with rfl | he
+    · exact ⟨by omega, by omega, i1'.2⟩
+    · exact i3 e he
+
+/-- **idx_window_covers.** The [min,max] window that `idxResult.loadSortingData` accumulates while draining the ordered
+    index contains the timestamp of every drained entry, whatever order the timestamps come in (the window selects the
+    parts and blocks to load, so an entry outside it would be lost). -/
+theorem idx_window_covers (batch : List IElem) (hpos : ∀ e ∈ batch, 0 < e.ts) :
+    ∀ e ∈ batch, (idxWindow batch).1 ≤ e.ts ∧ e.ts ≤ (idxWindow batch).2 := by
+  intro e he
+  have := (idxFold_spec batch (0, 0) hpos (by simp)).2.2 e he
+  rw [idxWindow_eq]
+  exact ⟨this.1, this.2.1⟩
+
+/-- non-monotone timestamps in index order (the input of the seeded change r1) -/
+example : idxWindow [⟨1, 10, 1001⟩, ⟨1, 30, 1002⟩, ⟨1, 20, 1003⟩] = (10, 30) ∧
+    idxQuery 3 [[⟨1, 10, 1001⟩], [⟨1, 20, 1003⟩, ⟨1, 30, 1002⟩]] [⟨1, 10, 1001⟩, ⟨1, 30, 1002⟩, ⟨1, 20, 1003⟩]
+      = [[1001, 1002, 1003]] := by decide
+
+/-- What the push-down must guarantee (C09 across nodes): the liaison's window over the merged node responses equals
+    the window of the ordered union, although every node only returns its first `limit' + offset` rows.
+    **Not proved** (needs an order-statistics argument over the per-node prefixes); tied by correspondence and checked by the
+    model-independent oracle on every run. -/
+def DistributedWindowStatement : Prop :=
+  ∀ (dflt limit offset : Nat) (desc : Bool) (nodes : List (List Int)),
+    distributedWindow dflt limit offset desc nodes
+      = window offset (if limit = 0 then dflt else limit) (sortInts (!desc) nodes.flatten)
+
+/-- the arithmetic of the push-down: the pushed limit always covers the liaison's window -/
+theorem pushedLimit_covers (dflt limit offset : Nat) :
+    offset + (if limit = 0 then dflt else limit) ≤ pushedLimit dflt limit offset := by
+  unfold pushedLimit; omega
+
+example : distributedWindow 20 0 5 false [[0, 2, 4, 6, 8, 10, 12], [1, 3, 5, 7, 9, 11]] = [5, 6, 7, 8, 9, 10, 11, 12] ∧
+    pushedLimit 20 0 5 = 25 := by decide
+
+
 end Banyan.C09
